@@ -191,7 +191,7 @@ def check_all(run, ghost, deleted):
         out.append(("cyclic", "the dependency graph has a cycle",
                     "import networkx\nif not networkx.is_directed_acyclic_graph(m.tracegraph):\n    sys.exit(1)"))
     # preds / succs / precedents of every held element
-    obs_preds = {}
+    obs_preds, obs_succs = {}, {}
     nontrivial = False
     for (cid, k), c in held.items():
         ex = expr_of(c)
@@ -200,20 +200,27 @@ def check_all(run, ghost, deleted):
             S = c.succs(*k)
             isin = c.is_input(*k)
             R = c.precedents(*k) if not isin else []     # the statement speaks of computed values only
+            pset = set()
+            for n in P:
+                o = n.obj
+                names.setdefault(id(o), fullname(o))
+                pset.add(("obj", id(o)) if n.args is None else ("item", id(o), n.args))
+            sset = set(("item", id(n.obj), n.args) for n in S)
+            for n in S:
+                names.setdefault(id(n.obj), fullname(n.obj))
+            rnames, rpreds = set(), set()
+            for n in R:
+                if type(n).__name__ == "ReferenceNode":
+                    rnames.add(n.obj.fullname)
+                else:
+                    rpreds.add(("obj", id(n.obj)) if n.args is None else ("item", id(n.obj), n.args))
         except Exception as e:
             out.append(("api-raises", "preds/succs/precedents of held %s%r raised %r" % (c.fullname, k, e),
-                        "try:\n    %s.preds(*%r); %s.succs(*%r); %s.precedents(*%r)\nexcept Exception:\n    sys.exit(1)"
+                        "try:\n    [(n.obj, n.args) for n in %s.preds(*%r) + %s.succs(*%r) + %s.precedents(*%r)]\nexcept Exception:\n    sys.exit(1)"
                         % (ex, k, ex, k, ex, k)))
             continue
-        pset = set()
-        for n in P:
-            o = n.obj
-            names.setdefault(id(o), fullname(o))
-            pset.add(("obj", id(o)) if n.args is None else ("item", id(o), n.args))
         obs_preds[(cid, k)] = pset
-        sset = set(("item", id(n.obj), n.args) for n in S)
-        for n in S:
-            names.setdefault(id(n.obj), fullname(n.obj))
+        obs_succs[(cid, k)] = sset
         # every listed neighbour is a held element
         for t in sorted(pset | sset, key=repr):
             if t[0] == "item" and (t[1], t[2]) not in all_held:
@@ -237,13 +244,6 @@ def check_all(run, ghost, deleted):
                             "got = set(_pn(n) for n in %s.preds(*%r))\nmust = %r\nopt = %r\nif not (must <= got <= (must | opt)):\n    sys.exit(1)"
                             % (ex, k, set(nm(names, t) for t in must), set(nm(names, t) for t in opt))))
             # precedents
-            rnames = set()
-            rpreds = set()
-            for n in R:
-                if type(n).__name__ == "ReferenceNode":
-                    rnames.add(n.obj.fullname)
-                else:
-                    rpreds.add(("obj", id(n.obj)) if n.args is None else ("item", id(n.obj), n.args))
             readnames = set(r for r, _ in fr.reads)
             if not (pset <= rpreds) or not (readnames <= rnames):
                 kind = "precedents-missing-ref" if not (readnames <= rnames) else "precedents-missing-pred"
@@ -258,10 +258,7 @@ def check_all(run, ghost, deleted):
         if (cid, k) not in obs_preds:
             continue
         ex = expr_of(c)
-        try:
-            S = set(("item", id(n.obj), n.args) for n in c.succs(*k))
-        except Exception:
-            continue
+        S = obs_succs[(cid, k)]
         inv = set(("item", fc, fk) for (fc, fk), ps in obs_preds.items() if ("item", cid, k) in ps)
         if S != inv:
             out.append(("succs-not-inverse", "succs of %s%r = %r but the elements listing it in preds() are %r"
@@ -538,7 +535,7 @@ class Inherit(Family):
 
     def spec(self, flags):
         sp = Spec()
-        sp.space("Base"); sp.space("Sub", bases=["Base"]); sp.space("Sub2", bases=["Base"])
+        sp.space("Base"); sp.space("Sub", bases=["Base"]); sp.space("Sub2", bases=["Base"], late_bases=True)
         sp.ref("Base", "r", 5)
         sp.cell("Base", "a", F("a", "", "b() + r", "a", "()", "(_space.fullname + '.r',)"))
         sp.cell("Base", "b", F("b", "", "r + 1", "b", "()", "(_space.fullname + '.r',)"), flags.get(("Base", "b"), True))
@@ -550,7 +547,8 @@ class Inherit(Family):
                 q("q-derived-leaf", "Sub", "b"),
                 e_formula("formula-base-leaf", "Base", "b", [self.B2]), e_setref("set-ref-base", "Base", "r", 6),
                 e_setref("set-ref-override-in-sub", "Sub", "r", 7), e_flip("flip-base-leaf", "Base", "b"),
-                e_input("input-derived-leaf", "Sub", "b", (), 50), e_del("del-base-leaf", "Base", "b"),
+                ("input-derived-leaf", "edit", lambda st: ("input", "Sub", "b", (), 50)
+                 if _alive(st, "Base", "b") and _cached(st, "Base", "b") and "Sub" not in st["unbased"] else None), e_del("del-base-leaf", "Base", "b"),
                 e_clear("clear-derived-leaf", "clear", "Sub", "b"),
                 ("override-formula-in-sub", "edit", lambda st: ("setformula", "Sub", "a", F("a", "", "b() + r + 1", "a", "()", "(_space.fullname + '.r',)"))
                  if ("Sub", "a") not in st["overridden"] else None),
@@ -575,7 +573,7 @@ class Items(Family):
     def alphabet(self):
         return [q("q-top", "S", "top"), q("q-top1", "S", "t1"), q("q-item-direct", "P[1]", "c", (2,)),
                 q("q-item-leaf-direct", "P[3]", "u", (1,)),
-                e_setref("set-ref-in-parametrised", "P", "k", 4), e_simple("clear-item", ("raw", "m.P.clear_at(1)")),
+                e_setref("set-ref-in-parametrised", "P", "k", 4), e_simple("clear-item", ("raw", "[m.P.clear_at(*s.argvalues) for s in list(m.P.itemspaces.values()) if s.argvalues[0] == 1]")),
                 e_simple("clear-all-items", ("raw", "m.P.clear_items()")), e_simple("space-clear-all", ("space_clear_all", "P")),
                 e_flip("flip-item-leaf", "P", "u"), e_formula("formula-item-mid", "P", "c", [self.C2]),
                 ("new-cells-in-parametrised", "edit", lambda st: ("newcells", "P", "n%d" % st["step"], F("n%d" % st["step"], "", "1", "P.n", "()"), True)),
@@ -678,6 +676,12 @@ def run_history(item):
                     ghost.shadowed.add(op[1])
                 r = run.edit(op)
                 apply_state(st, op)
+                if isinstance(r, Raised):
+                    ftags = ["family:" + fam.name] + ["uncached:%s.%s" % f for f, v in sorted(st["flags"].items()) if not v]
+                    out["fails"].append((tuple(ftags) + ("edit-raises", "after:" + optag) + tuple("seq:" + alpha[a][0] for a in hist[:step]),
+                                         "%s raised %r" % ("; ".join(line(o) for o in ops), r),
+                                         script(spec, ops[:-1], "try:\n    %s\nexcept Exception:\n    sys.exit(1)" % line(op))))
+                    return out
             assert not ghost.stack
             viol, nontriv = check_all(run, ghost, deleted_ifaces)
             out["nontrivial"] = out["nontrivial"] or nontriv
@@ -748,8 +752,7 @@ def run(res, tier, seed):
             res.fail(tags, what, script=scr, case=out["key"])
         if out["nontrivial"] and n % 2003 == 1:
             res.sample(out["sample"])
-    if n < n_exh:
-        res.exhaustive = False
+    res.exhaustive = n >= n_exh
     res.notes.append("%d histories enumerated (+%d sampled), %d dropped as not applicable" % (min(n, n_exh), max(0, n - n_exh), skipped))
 
 
